@@ -88,6 +88,8 @@ def run(ctx):
         for api in ("sync", "async"):
             t = ctx.path("trace_%s.ndjson" % api)
             args = ["c29", "--cases", cases, "--out", t]
+            if not q:
+                args += ["--life-out", ctx.path("life_%s.ndjson" % api)]
             if api == "async":
                 args.append("--async")
             if os.environ.get("VERIF_SELFTEST"):
@@ -133,3 +135,17 @@ def run(ctx):
     ctx.extra_cov["associations_established"] = rep["established"]
     ctx.extra_cov["send_calls"] = rep["send_calls"]
     ctx.exhaustive = False
+    if not q:
+        # growth beyond the listed properties (thorough only): the same connections, from the TCP connect to the
+        # close, as whole-life-cycle traces of AssocLife.tla (see C30); rejections are notes, never violations
+        allp = ctx.path("life_all.ndjson")
+        with open(allp, "w") as f:
+            for api in ("sync", "async"):
+                f.write(open(ctx.path("life_%s.ndjson" % api)).read())
+        lo = vlib.validate_trace_cases(SPEC, "Trace_AssocLife", allp, cfg="Trace_AssocLife.cfg", timeout=2400, heap="6g")
+        for r in lo["results"]:
+            ctx.add_tlc(r)
+        for rj in lo["rejections"]:
+            ctx.note("life cycle (outside C29): connection trace not a behaviour of AssocLife at %s" % json.dumps(rj["record"])[:300])
+        ctx.extra_cov["life_cycle_traces_validated"] = 2 * n - len(lo["rejections"])
+        ctx.extra_cov["life_cycle_traces_rejected"] = len(lo["rejections"])
